@@ -162,18 +162,23 @@ theorem runRules_visits : ∀ (i : Nat) (rules : List Rule) (fl : List Bool) (s 
         have := hft k (by simpa using hk)
         simpa [Nat.add_assoc, Nat.add_comm 1 k] using this
     unfold runRules
-    simp only
     split
-    · exact finish _ rfl
     · split
+      · -- the begin pattern of a closed range raised: nothing was decided, nothing logged
+        exact ⟨hc, hf, hl, fun _ _ => rfl⟩
+      · exact abort _ rfl
+    · simp only
+      split
       · exact finish _ rfl
-      · rename_i ops _
-        have hv := execOps_visits ops (s.logVisit i r.pat f)
-        rcases ho : execOps ops (s.logVisit i r.pat f) with ⟨sig, s1⟩
-        rw [ho] at hv
-        cases sig
-        · exact finish s1 hv
-        all_goals exact abort s1 hv
+      · split
+        · exact finish _ rfl
+        · rename_i ops _
+          have hv := execOps_visits ops (s.logVisit i r.pat f)
+          rcases ho : execOps ops (s.logVisit i r.pat f) with ⟨sig, s1⟩
+          rw [ho] at hv
+          cases sig
+          · exact finish s1 hv
+          all_goals exact abort s1 hv
 
 /-! ### the main loop and the whole run -/
 
